@@ -15,7 +15,7 @@ EVIDENCE = {
                   "LineTensor.perpendicular/mirror", "PlaneTensor.perpendicular", "utils.math.orth (SVD contract stub)", "SegmentTensor.length", "PointLikeTensor._normalize_array"],
     "bounds": "2-D: all coordinates free reals (arbitrary representatives); 3-D point-point distance through the SVD contract stub (orthonormal frame composed with an arbitrary rotation), "
               "point-plane distance with free reals; angle: three points / two lines in the plane; single objects",
-    "outside": "the numeric value of log (contract stub: the returned angle phi satisfies exp(2 i phi) = cr/|cr|), 3-D point-line distance (nested complex radicals), polygons / polyhedra "
+    "outside": "3-D distances (point-point through the SVD stub, point-plane): attempted (tier 'attempt'), not decided within budget -> not claimed; the numeric value of log (contract stub: the returned angle phi satisfies exp(2 i phi) = cr/|cr|), 3-D point-line distance (nested complex radicals), polygons / polyhedra "
                "as operands (thorough), collections (C04), rounding",
     "assumptions": ["np.log of a complex number: inverse of exp on the principal branch (stub)", "np.linalg.svd: contract stub", "ProjectiveTensor.__eq__/is_multiple: lemma proved in C20"],
 }
@@ -50,11 +50,15 @@ def _is_special(ctx, d):
     return not bool(np.isfinite(d))
 
 
-def mk_dist_pp(dim):
+def mk_dist_pp(dim, affine=False):
     def case(ctx):
         from geometer import Point, dist
         n = dim + 1
-        p, q = _nz(ctx, vec(ctx, "p", n)), _nz(ctx, vec(ctx, "q", n))
+        if affine:
+            p = mk_array(ctx, [ctx.real(f"p_{i}") for i in range(dim)] + [1])
+            q = mk_array(ctx, [ctx.real(f"q_{i}") for i in range(dim)] + [1])
+        else:
+            p, q = _nz(ctx, vec(ctx, "p", n)), _nz(ctx, vec(ctx, "q", n))
         pe, qe = E(p), E(q)
         pinf, qinf = ctx.fork(ctx.is_zero(pe[-1])), ctx.fork(ctx.is_zero(qe[-1]))
         d = dist(Point(p), Point(q))
@@ -103,7 +107,8 @@ def case_dist_pl(ctx):
 def case_dist_pe(ctx):
     """3-D point-plane"""
     from geometer import Point, Plane, dist
-    p, e = _finite(ctx, _nz(ctx, vec(ctx, "p", 4))), _nz(ctx, vec(ctx, "e", 4))
+    p = mk_array(ctx, [ctx.real(f"p_{i}") for i in range(3)] + [1])
+    e = _nz(ctx, vec(ctx, "e", 4))
     pe, ee = E(p), E(e)
     ctx.assume(ctx.neg(ctx.all([ctx.is_zero(x) for x in ee[:3]])))
     d = dist(Point(p), Plane(e))
@@ -171,6 +176,59 @@ def case_angle_ll(ctx):
     _angle_ok(ctx, "angle-ll", phi, u, v)
 
 
+SEGMENTS = [([0, 0, 1], [4, 0, 1]), ([1, -1, 1], [-6, -4, -2]), ([-2, 1, 2], [0, 3, 1])]
+
+
+def mk_dist_point_segment(k):
+    """distance from a free finite point to a lattice segment (end points with arbitrary, also negative, weights)"""
+    def case(ctx):
+        from geometer import Segment, Point, dist
+        a, b = SEGMENTS[k]
+        seg = Segment(Point(ctx.const(a, float)), Point(ctx.const(b, float)))
+        x, y = ctx.real("x"), ctx.real("y")
+        q = Point(mk_array(ctx, [x, y, 1]))
+        d = dist(seg, q)
+        d2 = dist(q, seg)
+        from fractions import Fraction
+        A = [Fraction(a[0], a[2]), Fraction(a[1], a[2])] if ctx.symbolic else [a[0] / a[2], a[1] / a[2]]
+        B = [Fraction(b[0], b[2]), Fraction(b[1], b[2])] if ctx.symbolic else [b[0] / b[2], b[1] / b[2]]
+        ux, uy = B[0] - A[0], B[1] - A[1]
+        L2 = ux * ux + uy * uy
+        t = (x - A[0]) * ux + (y - A[1]) * uy          # parameter * L2
+        if ctx.fork(ctx.lt(t, 0)):
+            ref2 = (x - A[0]) * (x - A[0]) + (y - A[1]) * (y - A[1])
+            ctx.outcome("before-a")
+        elif ctx.fork(ctx.lt(L2, t)):
+            ref2 = (x - B[0]) * (x - B[0]) + (y - B[1]) * (y - B[1])
+            ctx.outcome("after-b")
+        else:
+            cr = (x - A[0]) * uy - (y - A[1]) * ux
+            ref2 = cr * cr / L2
+            ctx.outcome("foot-inside")
+        ctx.require("dist-point-segment:nonnegative", ctx.le(0, d))
+        ctx.require("dist-point-segment:square", ctx.eq(d * d, ref2))
+        ctx.require("dist-point-segment:symmetric", ctx.eq(d, d2))
+    return case
+
+
+def case_angle_ppp_3d(ctx):
+    """three points of 3-space: the angle equals the planar angle of the triangle (cosine and sine of 2 phi from dot / cross products)"""
+    from geometer import Point, angle
+    a = [2, -1, 4]
+    b = [3, 0, 4]
+    c = [ctx.real(f"c_{i}") for i in range(3)]
+    phi = angle(Point(*[float(v) for v in a]), Point(*[float(v) for v in b]), Point(mk_array(ctx, c + [1])))
+    u = [b[i] - a[i] for i in range(3)]
+    v = [c[i] - a[i] for i in range(3)]
+    dotp = sum(u[i] * v[i] for i in range(3))
+    cr = [u[1] * v[2] - u[2] * v[1], u[2] * v[0] - u[0] * v[2], u[0] * v[1] - u[1] * v[0]]
+    cr2 = cr[0] * cr[0] + cr[1] * cr[1] + cr[2] * cr[2]
+    cs, sn = _cs2(ctx, phi)
+    # cos 2phi = (dot^2 - |cross|^2)/(dot^2 + |cross|^2)  (orientation in space is not defined: sign of sin 2phi free, its square is fixed)
+    ctx.require("angle-ppp-3d:cos2phi", ctx.eq(cs * (dotp * dotp + cr2), dotp * dotp - cr2))
+    ctx.require("angle-ppp-3d:sin2phi-squared", ctx.eq(sn * sn * (dotp * dotp + cr2) * (dotp * dotp + cr2), 4 * dotp * dotp * cr2))
+
+
 def case_segment_length(ctx):
     from geometer import Segment, Point
     a, b = _finite(ctx, _nz(ctx, vec(ctx, "a", 3))), _finite(ctx, _nz(ctx, vec(ctx, "b", 3)))
@@ -216,11 +274,16 @@ def cases(tier, seed):
     def add(name, fn, **kw):
         cs.append(Case(name, fn, setup=_setup, **kw))
     add("dist_pp_2d", mk_dist_pp(2), tiers=Q)
-    add("dist_pp_3d", mk_dist_pp(3), tiers=Q, max_paths=2000)
+    A = ("attempt",)   # attempted, not decided within budget on the unchanged tree: outside the claim (./check C09 --tier attempt)
+    add("dist_pp_3d_affine", mk_dist_pp(3, affine=True), tiers=A, max_paths=2000)
+    add("dist_pp_3d", mk_dist_pp(3), tiers=A, max_paths=2000)
     add("dist_pl_2d", case_dist_pl, tiers=Q, max_paths=2000)
-    add("dist_pe_3d", case_dist_pe, tiers=Q, max_paths=2000)
+    add("dist_pe_3d", case_dist_pe, tiers=("attempt",), max_paths=2000)
     add("angle_ppp_2d", case_angle_ppp, tiers=Q, max_paths=2000)
     add("angle_ll_2d", case_angle_ll, tiers=Q, max_paths=2000)
     add("segment_length_2d", case_segment_length, tiers=Q)
+    for k in range(3):
+        add(f"dist_point_segment{k}", mk_dist_point_segment(k), tiers=Q, max_paths=2000)
+    add("angle_ppp_3d", case_angle_ppp_3d, tiers=("attempt",), max_paths=2000)
     add("dist_isometry_2d", case_isometry_invariance, tiers=Q)
     return cs
